@@ -374,6 +374,7 @@ bloom_filter_alloc<A> bloom_filter_alloc<A>::internal_deserialize_or_wrap(void* 
     return bloom_filter_alloc<A>(num_longs << 6, num_hashes, seed, allocator);
   }
 
+  ensure_minimum_memory(length_bytes, BIT_ARRAY_OFFSET_BYTES);
   uint64_t num_bits_set;
   ptr += copy_from_mem(ptr, num_bits_set);
   const bool is_dirty = (num_bits_set == DIRTY_BITS_VALUE);
@@ -381,6 +382,7 @@ bloom_filter_alloc<A> bloom_filter_alloc<A>::internal_deserialize_or_wrap(void* 
   uint8_t* bit_array;
   uint8_t* memory;
   if (wrap) {
+    ensure_minimum_memory(end_ptr - ptr, static_cast<uint64_t>(num_longs) << 3);
     memory = static_cast<uint8_t*>(bytes);
     bit_array = memory + BIT_ARRAY_OFFSET_BYTES;
   } else {
